@@ -142,7 +142,8 @@ Inductive cb :=
 | CLeaf (c : nat)             (* objects of class c -> a scalar *)
 | CList (c : nat)             (* objects of class c -> a new list holding its fields *)
 | CField (c : nat)            (* objects of class c -> _replace(first field = scalar): new object, metadata copied *)
-| CChild (c : nat).           (* objects of class c -> their first field (an EXISTING xnode) *)
+| CChild (c : nat)            (* objects of class c -> their first field (an EXISTING xnode) *)
+| CWrap (c' : nat).           (* a scalar or list (what an EARLIER callback of the chain made of the node) -> a fresh object *)
 Definition FRESH := 9000.     (* identities of nodes made by callbacks are not compared: all >= FRESH *)
 (* fr: the identity given to what this callback invocation creates (distinct per stage of the chain) *)
 Definition apply_cb (k : cb) (fr : nat) (n : xnode) : xnode :=
@@ -156,22 +157,107 @@ Definition apply_cb (k : cb) (fr : nat) (n : xnode) : xnode :=
       | CList c0 => if Nat.eqb c c0 then XLst fr fs else n
       | CField c0 => if Nat.eqb c c0 then (match fs with [] => n | _ :: r => XObj fr c (XLeaf fr :: r) m end) else n
       | CChild c0 => if Nat.eqb c c0 then (match fs with [] => n | x :: _ => x end) else n
+      | CWrap _ => n
       end
-  | _ => n
+  | _ => match k with CWrap c' => XObj fr c' [] None | _ => n end
   end.
-(* transform's inner callback: each user callback in order, each seeing the previous one's output *)
-Definition chain_step (st : xnode * nat) (k : cb) : xnode * nat :=
+(* transform's inner callback: each user callback in order, each seeing the previous one's output.  A replacement
+   that is a parsed object without metadata of its own receives the metadata of the node it stands for: that of the
+   previous value when that is a parsed object, otherwise (an earlier callback turned the node into a scalar or a
+   list) that of the LAST parsed object that stood for the node.  `last` is that metadata. *)
+Definition hand_over (last : option nat) (prev now : xnode) : xnode :=
+  if same prev now then now else
+  match now with
+  | XObj i c fs None => XObj i c fs last
+  | _ => now
+  end.
+Definition last_meta (last : option nat) (cur : xnode) : option nat :=
+  match cur with XObj _ _ _ m => m | _ => last end.
+Definition chain_step (st : xnode * option nat * nat) (k : cb) : xnode * option nat * nat :=
+  let '(cur, last, j) := st in
+  let last' := last_meta last cur in
+  (hand_over last' cur (apply_cb k (FRESH + j) cur), last', S j).
+Definition chainf (ks : list cb) (n : xnode) : xnode := fst (fst (fold_left chain_step ks (n, None, 0))).
+
+(* as shipped: metadata was handed over from the previous value only, so a chain that passes through a scalar or a
+   list lost it *)
+Definition shipped_chain_step (st : xnode * nat) (k : cb) : xnode * nat :=
   let '(cur, j) := st in (carry_meta cur (apply_cb k (FRESH + j) cur), S j).
-Definition chainf (ks : list cb) (n : xnode) : xnode := fst (fold_left chain_step ks (n, 0)).
+Definition shipped_chainf (ks : list cb) (n : xnode) : xnode := fst (fold_left shipped_chain_step ks (n, 0)).
+
+(* when the previous value is a parsed object the two rules coincide *)
+Lemma hand_over_is_carry_meta last i c fs m now :
+  hand_over (last_meta last (XObj i c fs m)) (XObj i c fs m) now = carry_meta (XObj i c fs m) now.
+Proof. unfold hand_over, carry_meta, last_meta. destruct (same _ now); auto. Qed.
 
 Lemma chainf_id_only ks n : Forall (fun k => k = CId) ks -> chainf ks n = n.
 Proof.
-  unfold chainf. generalize 0. revert n. induction ks as [|k ks IH]; intros n j H; [reflexivity|].
+  unfold chainf. generalize 0. generalize (@None nat). revert n.
+  induction ks as [|k ks IH]; intros n last j H; [reflexivity|].
   inversion H; subst. cbn [fold_left chain_step].
-  assert (E : carry_meta n (apply_cb CId (FRESH + j) n) = n).
-  { destruct n; cbn; unfold carry_meta, same; cbn; rewrite Nat.eqb_refl; reflexivity. }
+  assert (E : hand_over (last_meta last n) n (apply_cb CId (FRESH + j) n) = n).
+  { destruct n; cbn; unfold hand_over, same; cbn; rewrite Nat.eqb_refl; reflexivity. }
   rewrite E. apply IH. assumption.
 Qed.
+
+(* the full statement about metadata: whatever the chain does in between (scalars, lists, copies, fresh objects), when
+   no callback brings position metadata of its own or returns another node of the tree, a result that is a parsed
+   object carries the metadata of the node the chain was applied to *)
+Definition brings_no_metadata (k : cb) : Prop := match k with CReplMeta _ _ _ | CChild _ => False | _ => True end.
+Definition stands_for (m : option nat) (cur : xnode) (last : option nat) : Prop :=
+  match cur with XObj _ _ _ m' => m' = m | _ => last = m end.
+Local Opaque FRESH.
+Lemma chain_step_stands_for m k cur last j : brings_no_metadata k -> stands_for m cur last -> xnid cur < FRESH + j ->
+  let '(cur', last', _) := chain_step (cur, last, j) k in stands_for m cur' last' /\ xnid cur' < FRESH + S j.
+Proof.
+  intros Hk Hs Hid. cbn [chain_step].
+  assert (Hl : last_meta last cur = m) by (destruct cur; cbn in *; auto).
+  rewrite Hl. clear Hl.
+  assert (Hsame : forall n, xnid n = xnid cur -> same cur n = true) by (intros n E; unfold same; rewrite E; apply Nat.eqb_refl).
+  assert (Hnew : forall n, xnid n = FRESH + j -> same cur n = false) by (intros n E; unfold same; rewrite E; apply Nat.eqb_neq; lia).
+  assert (Keep : stands_for m (hand_over m cur cur) m /\ xnid (hand_over m cur cur) < FRESH + S j).
+  { unfold hand_over. rewrite (Hsame cur eq_refl). split; [|lia]. destruct cur; cbn in *; auto. }
+  assert (Leaf : stands_for m (hand_over m cur (XLeaf (FRESH + j))) m /\ xnid (hand_over m cur (XLeaf (FRESH + j))) < FRESH + S j).
+  { unfold hand_over. rewrite (Hnew (XLeaf (FRESH + j)) eq_refl). cbn. split; [auto|lia]. }
+  assert (Lst : forall l, stands_for m (hand_over m cur (XLst (FRESH + j) l)) m /\ xnid (hand_over m cur (XLst (FRESH + j) l)) < FRESH + S j).
+  { intros l. unfold hand_over. rewrite (Hnew (XLst (FRESH + j) l) eq_refl). cbn. split; [auto|lia]. }
+  assert (Obj : forall c' fs' mm, (mm = None \/ mm = m) ->
+            stands_for m (hand_over m cur (XObj (FRESH + j) c' fs' mm)) m /\ xnid (hand_over m cur (XObj (FRESH + j) c' fs' mm)) < FRESH + S j).
+  { intros c' fs' mm Hmm. unfold hand_over. rewrite (Hnew (XObj (FRESH + j) c' fs' mm) eq_refl).
+    destruct Hmm as [-> | ->]; [|destruct m]; cbn; split; auto; lia. }
+  destruct cur as [i|i l|i c fs m'].
+  - destruct k; cbn [apply_cb]; try exact Keep; try contradiction. apply Obj; auto.
+  - destruct k; cbn [apply_cb]; try exact Keep; try contradiction. apply Obj; auto.
+  - cbn in Hs. subst m'.
+    destruct k; cbn [apply_cb]; try contradiction; try exact Keep;
+      try (destruct (Nat.eqb c c0); [|exact Keep]).
+    + apply Obj; auto.
+    + exact Leaf.
+    + apply Lst.
+    + destruct fs as [|x r]; [exact Keep|]. apply Obj; auto.
+Qed.
+Theorem chain_keeps_metadata : forall ks i c fs m, i < FRESH -> Forall brings_no_metadata ks ->
+  match chainf ks (XObj i c fs m) with XObj _ _ _ m' => m' = m | _ => True end.
+Proof.
+  intros ks i c fs m Hi H. unfold chainf.
+  assert (G : forall ks cur last j, Forall brings_no_metadata ks -> stands_for m cur last -> xnid cur < FRESH + j ->
+              let '(cur', last', _) := fold_left chain_step ks (cur, last, j) in stands_for m cur' last').
+  { induction ks0 as [|k ks0 IH]; intros cur last j HF Hs Hid; [exact Hs|].
+    inversion HF as [|? ? Hk Hks]; subst. cbn [fold_left].
+    pose proof (chain_step_stands_for m k cur last j Hk Hs Hid) as H1.
+    destruct (chain_step (cur, last, j) k) as [[cur1 last1] j1] eqn:E.
+    assert (j1 = S j) by (cbn [chain_step] in E; inversion E; auto). subst j1.
+    destruct H1 as (A & B). apply IH; auto. }
+  specialize (G ks (XObj i c fs m) None 0 H eq_refl ltac:(cbn [xnid]; lia)).
+  destruct (fold_left chain_step ks (XObj i c fs m, None, 0)) as [[cur' last'] j']. cbn [fst].
+  destruct cur'; auto.
+Qed.
+Local Transparent FRESH.
+(* the shipped chain loses it: node -> scalar -> fresh object *)
+Example shipped_chain_loses_metadata :
+  shipped_chainf [CLeaf 11; CWrap 12] (XObj 3 11 [] (Some 77)) = XObj (FRESH + 1) 12 [] None /\
+  chainf [CLeaf 11; CWrap 12] (XObj 3 11 [] (Some 77)) = XObj (FRESH + 1) 12 [] (Some 77).
+Proof. vm_compute. auto. Qed.
 
 (* ---- C16_once: the callback is applied exactly once per object occurrence of the
    INPUT, whatever the callbacks return (the results of callbacks are not re-traversed) ---- *)
